@@ -158,7 +158,24 @@ func instrPos2(v ssa.Value) token.Pos {
 
 // tokenFieldOrigins classifies where the value stored into a TokenResponse field comes from.
 func tokenValueOriginOK(R *Roles, fn *ssa.Function, v ssa.Value) (bool, string) {
-	for _, l := range Leaves(v, leafOpts{noConcat: true}) {
+	// small own helpers that select or compute the value (`valueOr(new, old)`, `o.expirationFromNow(d)`) are looked
+	// through: their parameters stand for the caller's arguments. Role functions and anything that talks to the
+	// store or the IdP are opaque.
+	skip := func(f *ssa.Function) bool {
+		if f == R.TokenExchange || f == R.Refresh || f == R.Callback || f == R.Redirect || f == R.Validator {
+			return true
+		}
+		for _, ci := range allCalls(f) {
+			if ci.Common().IsInvoke() && typeID(ci.Common().Value.Type()) != pkgOIDC+".Clock" && !strings.HasSuffix(typeID(ci.Common().Value.Type()), "telemetry.Logger") {
+				return true
+			}
+			if callee := ci.Common().StaticCallee(); callee != nil && isOwnPath(pkgPathOf(callee)) && callee.Signature.Recv() == nil && pkgPathOf(callee) == pkgAuthz && len(allCalls(callee)) > 4 {
+				return true
+			}
+		}
+		return false
+	}
+	for _, l := range LeavesInl(v, leafOpts{noConcat: true}, 1, skip) {
 		l = resolveCell(l)
 		base, f, ok := fieldLoad(l)
 		if ok && f != nil {
@@ -744,7 +761,6 @@ func c02R4(c *Check, R *Roles) {
 	}
 }
 
-
 // audienceComparisons: string equalities between an element of the token's audience and the handler's
 // configured client id, in fn or in own helpers it calls (parameters followed to the call sites in fn).
 func audienceComparisons(P *Program, R *Roles, fn *ssa.Function) []ssa.Value {
@@ -812,7 +828,9 @@ func audienceComparisons(P *Program, R *Roles, fn *ssa.Function) []ssa.Value {
 		return false
 	}
 	isAud := func(c *ssa.Call) bool { return c.Common().IsInvoke() && c.Common().Method.Name() == "Audience" }
-	isCID := func(c *ssa.Call) bool { return isCallTo(c, idOIDCConfig+".GetClientId") && isHandlerConfig(c.Common().Args[0]) }
+	isCID := func(c *ssa.Call) bool {
+		return isCallTo(c, idOIDCConfig+".GetClientId") && isHandlerConfig(c.Common().Args[0])
+	}
 	for _, g := range deepFuncs(fn, 2) {
 		if g != fn && !R.InHandler(g) {
 			continue
